@@ -509,4 +509,70 @@ def run (c : Case) : Out Dict :=
   | .error e => .error e
   | .ok st => parsePhase c.withoutRoot st c.parse
 
+
+/-! ### Optional members: does `inner: Optional[Inner] = None` become an instance or stay `None`?
+
+  parsing.py `_create_dataclass_instance` + `_is_at_default` (after 3f531df and d1d203e).  The tree below describes
+  one dataclass whose Optional members are *none by default* (no file, `set_defaults` call or default instance mentions
+  anything below them — otherwise `wrapper.default` is not None and the member is simply built), so the default of
+  every leaf below is its definition default and the only other source is an explicit command-line value. -/
+
+/-- `!=` on the scalar leaf values of the fragment (both sides have the leaf's type) -/
+def J.eqScalar : J → J → Bool
+  | .null, .null => true
+  | .int a, .int b => a == b
+  | .str a, .str b => a == b
+  | .atom a, .atom b => a == b
+  | _, _ => false
+
+inductive OT
+  | nil
+  /-- a leaf: argument default (`null` = none), explicit command-line value if any -/
+  | leaf (name : Str) (dflt : J) (arg : Option J) (rest : OT)
+  /-- a nested member; `optional` = declared `Optional[K] = None` -/
+  | member (name : Str) (optional : Bool) (sub : OT) (rest : OT)
+
+/-- the loop over `wrapper.fields` (`arg_value != default_value`) and `_is_at_default` over all nested members,
+    recursively: every leaf below has no explicit value, or one equal to its default -/
+def atDefault : OT → Bool
+  | .nil => true
+  | .leaf _ d a rest => (match a with
+                         | none => true
+                         | some v => J.eqScalar v d) && atDefault rest
+  | .member _ _ sub rest => atDefault sub && atDefault rest
+
+/-- the rule before 3f531df / d1d203e: only the member's own direct fields were compared -/
+def directAtDefault : OT → Bool
+  | .nil => true
+  | .leaf _ d a rest => (match a with
+                         | none => true
+                         | some v => J.eqScalar v d) && directAtDefault rest
+  | .member _ _ _ rest => directAtDefault rest
+
+/-- the collapse rule: Optional ∧ none-by-default ∧ every leaf below at its argument default ⇒ `None` -/
+def collapse (optional : Bool) (sub : OT) : Bool := optional && atDefault sub
+def collapseOld (optional : Bool) (sub : OT) : Bool := optional && directAtDefault sub
+
+/-- what post-processing builds, bottom-up (parsing.py:844-909): a leaf is its explicit value or its default, a member
+    is `None` when it collapses and the instance built from its own fields otherwise -/
+def built : OT → Dict
+  | .nil => []
+  | .leaf n d a rest => (n, match a with
+                            | some v => v
+                            | none => d) :: built rest
+  | .member n opt sub rest => (n, if collapse opt sub then .null else .dict (built sub)) :: built rest
+
+def builtOld : OT → Dict
+  | .nil => []
+  | .leaf n d a rest => (n, match a with
+                            | some v => v
+                            | none => d) :: builtOld rest
+  | .member n opt sub rest => (n, if collapseOld opt sub then .null else .dict (builtOld sub)) :: builtOld rest
+
+/-- a required option is missing (a leaf without default and without explicit value) → status 2 -/
+def otMissing : OT → Bool
+  | .nil => false
+  | .leaf _ d a rest => (d.isNull && a.isNone) || otMissing rest
+  | .member _ _ sub rest => otMissing sub || otMissing rest
+
 end SpVerif.Layers
